@@ -4,6 +4,7 @@ package c14
 
 import (
 	"context"
+	"errors"
 	"fmt"
 	"runtime"
 	"strings"
@@ -44,7 +45,14 @@ type Case struct {
 	Stop    int
 	StopAt  int  // after this many successful Next calls
 	SlowDS  bool // the datasource yields between calls
-	IDMode  int  // 0 ids 1..n; 1 ids above 2^40; 2 negative ids (placeholders of unsaved elements); informational, the ids in Rels/Request are already mapped
+	// ViaChange: the histories are put into the create/modify/delete sections
+	// of an osm.Change and served by its HistoryDatasource().
+	ViaChange bool
+	// FailRel > 0: looking up the FailRel-th relation with history (modulo)
+	// fails with a backend error once FailAfter lookups were served.
+	FailRel   int
+	FailAfter int
+	IDMode    int // 0 ids 1..n; 1 ids above 2^40; 2 negative ids (placeholders of unsaved elements); informational, the ids in Rels/Request are already mapped
 }
 
 // mapIDs rewrites every relation id (own ids, relation member refs, requests).
@@ -68,14 +76,35 @@ type ds struct {
 	hist  map[osm.RelationID]osm.Relations
 	slow  bool
 	calls int64 // lookups started
+	// inner (optional): the histories are served by this data source, obtained
+	// from (*osm.Change).HistoryDatasource()
+	inner *osm.HistoryDatasource
+	// failID/failAfter: the lookup of failID fails with errBackend (a real
+	// error, not not-found) once failAfter lookups have been served
+	failID    osm.RelationID
+	failAfter int64
+	failed    int64
 }
+
+var errBackend = errors.New("c14: injected backend failure")
 
 var errNF = fmt.Errorf("not found")
 
 func (d *ds) RelationHistory(ctx context.Context, id osm.RelationID) (osm.Relations, error) {
-	atomic.AddInt64(&d.calls, 1)
+	n := atomic.AddInt64(&d.calls, 1)
 	if d.slow {
 		runtime.Gosched()
+	}
+	if d.failID != 0 && id == d.failID && n > d.failAfter {
+		atomic.AddInt64(&d.failed, 1)
+		return nil, errBackend
+	}
+	if d.inner != nil {
+		h, err := d.inner.RelationHistory(ctx, id)
+		if err != nil {
+			return nil, errNF
+		}
+		return h, nil
 	}
 	if h, ok := d.hist[id]; ok {
 		return h, nil
@@ -128,6 +157,30 @@ func build(c Case) (d *ds, has map[int64]bool, edges map[int64]map[int64]bool, r
 	}
 	for _, r := range c.Request {
 		req = append(req, osm.RelationID(r))
+	}
+	if c.ViaChange {
+		hc := &osm.Change{Create: &osm.OSM{}, Modify: &osm.OSM{}, Delete: &osm.OSM{}}
+		sec := []*osm.OSM{hc.Create, hc.Modify, hc.Delete}
+		i := 0
+		for _, r := range c.Rels {
+			for _, rel := range d.hist[osm.RelationID(r.ID)] {
+				sec[i%3].Relations = append(sec[i%3].Relations, rel)
+				i++
+			}
+		}
+		d.inner = hc.HistoryDatasource()
+	}
+	if c.FailRel > 0 {
+		var withHist []int64
+		for _, r := range c.Rels {
+			if len(r.Versions) > 0 {
+				withHist = append(withHist, r.ID)
+			}
+		}
+		if len(withHist) > 0 {
+			d.failID = osm.RelationID(withHist[c.FailRel%len(withHist)])
+			d.failAfter = int64(c.FailAfter)
+		}
 	}
 	return
 }
@@ -268,6 +321,15 @@ func judge(c Case, d *ds, has map[int64]bool, edges map[int64]map[int64]bool, re
 	if stoppedEarly {
 		return nil
 	}
+	if atomic.LoadInt64(&d.failed) > 0 {
+		// a lookup failed with a real error: the iteration ends (the watchdog
+		// covers a consumer left blocked) and reports that error; what was emitted
+		// before has been checked above
+		if c.Stop == stopNone && !errors.Is(res.err, errBackend) {
+			return harness.Failf("C14/error", "a data source lookup failed with %q; the iteration ended with Err() = %v after %v", errBackend, res.err, res.got)
+		}
+		return nil
+	}
 	if res.err != nil && c.Stop == stopNone {
 		return harness.Failf("C14/error", "complete iteration reported %v", res.err)
 	}
@@ -344,7 +406,7 @@ func classify(c Case) (bool, []string) {
 func TestOrdering(t *testing.T) {
 	harness.Run(t, harness.Spec[Case]{
 		Name: "ordering", N: 10000,
-		Rule: "reference graphs over 1..12 relation ids: DAGs, cycles, self loops, ids without history, 1..3 versions per relation with different member sets, node/way members (also with ids equal to relation ids), request lists with duplicates, unknown ids, arbitrary order; half of the graphs use relation ids above 2^40 or negative ids; stop plans: run to completion, Close after k Next calls, parent-context cancel after k; oracle = no duplicates, only ids with history, only requested-or-reachable ids, every requested id with history present after a complete run, on acyclic graphs every id after all ids reachable from it (checked on every prefix), Next false after the stop, iteration/Close return within 20 s, producer goroutine gone, no data source lookup started after Close returned; non-trivial = >=3 relations with history and >=1 relation->relation edge",
+		Rule: "reference graphs over 1..12 relation ids: DAGs, cycles, self loops, ids without history, 1..3 versions per relation with different member sets, node/way members (also with ids equal to relation ids), request lists with duplicates, unknown ids, arbitrary order; a quarter of the data sources are obtained from (*osm.Change).HistoryDatasource() with the versions spread over the three sections; one case in six lets the lookup of one relation fail with a real error after 0..6 lookups (the iteration must end and report it); half of the graphs use relation ids above 2^40 or negative ids; stop plans: run to completion, Close after k Next calls, parent-context cancel after k; oracle = no duplicates, only ids with history, only requested-or-reachable ids, every requested id with history present after a complete run, on acyclic graphs every id after all ids reachable from it (checked on every prefix), Next false after the stop, iteration/Close return within 20 s, producer goroutine gone, no data source lookup started after Close returned; non-trivial = >=3 relations with history and >=1 relation->relation edge",
 		Gen: func(t *rapid.T) Case {
 			n := rapid.IntRange(1, 12).Draw(t, "n")
 			dag := rapid.IntRange(0, 2).Draw(t, "dag") != 0
@@ -380,6 +442,11 @@ func TestOrdering(t *testing.T) {
 			c.Stop = rapid.SampledFrom([]int{stopNone, stopNone, stopClose, stopCancel}).Draw(t, "stop")
 			c.StopAt = rapid.IntRange(0, n).Draw(t, "stopAt")
 			c.SlowDS = rapid.Bool().Draw(t, "slow")
+			c.ViaChange = rapid.IntRange(0, 3).Draw(t, "viaChange") == 0
+			if rapid.IntRange(0, 5).Draw(t, "fault?") == 0 {
+				c.FailRel = rapid.IntRange(1, 12).Draw(t, "failRel")
+				c.FailAfter = rapid.IntRange(0, 6).Draw(t, "failAfter")
+			}
 			c.IDMode = rapid.SampledFrom([]int{0, 0, 1, 2}).Draw(t, "idMode")
 			switch c.IDMode {
 			case 1:
